@@ -862,9 +862,11 @@ class ChannelStats:
         ndarray
             The skewness of each channel.
         """
+        # Powers of the float32 second moment overflow long before the ratio does
+        m2 = self._moments["m2"].astype(np.float64)
         return np.divide(
             self._moments["m3"],
-            np.power(self._moments["m2"], 1.5),
+            np.power(m2, 1.5),
             out=np.zeros_like(self._moments["m3"]),
             where=self._moments["m2"] != 0,
         ) * np.sqrt(self.nsamps)
@@ -878,10 +880,12 @@ class ChannelStats:
         ndarray
             The kurtosis of each channel.
         """
+        # Powers of the float32 second moment overflow long before the ratio does
+        m2 = self._moments["m2"].astype(np.float64)
         return (
             np.divide(
                 self._moments["m4"],
-                np.power(self._moments["m2"], 2.0),
+                np.power(m2, 2.0),
                 out=np.zeros_like(self._moments["m4"]),
                 where=self._moments["m2"] != 0,
             )
